@@ -50,6 +50,7 @@ type Case struct {
 	Sentinel    bool       `json:"sentinel"`            // direct kinds: after the producers, a sentinel row must still be delivered before Stop
 	HookSeed    uint64     `json:"hook_seed,omitempty"` // seed of the engine's build-tag-guarded perturbation points (0 = off)
 	Small       *SmallBuf  `json:"small,omitempty"`     // nil = default buffer sizes; otherwise a custom performance configuration with small buffers (every stage fills up)
+	Backlog     bool       `json:"backlog,omitempty"`   // planted: blocking pipeline, smallest buffers, slow sink, Stop under backlog
 	Where       int        `json:"where,omitempty"`     // shape of the (always true) WHERE predicate: 0 shortcut comparison, 1-3 forms the general evaluator has to run
 }
 
@@ -121,6 +122,22 @@ func genCase(t *rapid.T) Case {
 			SinkPool:    rapid.SampledFrom([]int{1, 4}).Draw(t, "sbpool"),
 			SinkWorkers: rapid.SampledFrom([]int{1, 2}).Draw(t, "sbworkers"),
 		}
+	}
+	// planted backlog: a blocking pipeline whose every stage is full when Stop arrives (smallest buffers, one slow
+	// asynchronous sink, several unpaced producers, Stop once the backlog has built up) - a goroutine that waits
+	// inside a stage hand-over at that moment must still be released
+	if rapid.IntRange(0, 7).Draw(t, "backlog") == 0 {
+		c.Kind = rapid.SampledFrom([]string{"counting", "counting", "tumbling", "sliding", "session", "global", "direct"}).Draw(t, "blkind")
+		c.EventTime = false
+		c.Strategy = "block"
+		c.Small = &SmallBuf{Data: 4, Result: 2, WinOut: 2, SinkPool: 1, SinkWorkers: 1}
+		c.Sinks = []SinkSpec{{Kind: "slow", Sync: false, Every: 1, DelayUs: rapid.SampledFrom([]int{1000, 5000}).Draw(t, "bldelay")}}
+		c.Producers = rapid.IntRange(2, 4).Draw(t, "blproducers")
+		c.RowsPer = 600000 / c.Sinks[0].DelayUs
+		c.PaceUs = 0
+		c.PanicRow, c.Sentinel, c.SyncCallers = false, false, 0
+		c.StopAfterUs = rapid.SampledFrom([]int{3000, 20000, 20000}).Draw(t, "blstopafter")
+		c.Backlog = true
 	}
 	return c
 }
@@ -263,6 +280,9 @@ func runCase(c Case) (res pbt.Result) {
 		}
 		opt = []streamsql.Option{streamsql.WithCustomPerformance(pc), streamsql.WithLogger(logger.NewDiscardLogger())}
 		res.Class("small-buffers")
+		if c.Backlog {
+			res.Class("planted-backlog")
+		}
 	}
 	s := streamsql.New(opt...)
 	if err := s.Execute(sqlOf(c)); err != nil {
